@@ -890,6 +890,55 @@ func runConfigScenario(kind string, steps []cfgStep) []Event {
 
 // ---------------------------------------------------------------------------
 
+// pool size semantics: a size <= 0 means one worker (C19), never none and never more
+func poolSizeProbe(size int) Event {
+	eff := size
+	if eff <= 0 {
+		eff = 1
+	}
+	tasks := eff + 1
+	var ran, inflight, hwm, arrived int32
+	barrier := make(chan struct{})
+	var once sync.Once
+	done := make(chan struct{})
+	go func() {
+		defer close(done)
+		defer func() { recover() }()
+		p := flyt.NewWorkerPool(size)
+		for i := 0; i < tasks; i++ {
+			p.Submit(func() {
+				n := atomic.AddInt32(&inflight, 1)
+				for {
+					h := atomic.LoadInt32(&hwm)
+					if n <= h || atomic.CompareAndSwapInt32(&hwm, h, n) {
+						break
+					}
+				}
+				// the first eff tasks meet at a barrier: all eff workers must exist
+				if atomic.AddInt32(&arrived, 1) >= int32(eff) {
+					once.Do(func() { close(barrier) })
+				}
+				select {
+				case <-barrier:
+				case <-time.After(500 * time.Millisecond):
+				}
+				time.Sleep(time.Millisecond)
+				atomic.AddInt32(&inflight, -1)
+				atomic.AddInt32(&ran, 1)
+			})
+		}
+		p.Wait()
+		p.Close()
+	}()
+	hung := false
+	select {
+	case <-done:
+	case <-time.After(3 * time.Second):
+		hung = true
+	}
+	return Event{"ev": "poolsize", "size": size, "tasks": tasks, "ran": int(atomic.LoadInt32(&ran)), "hwm": int(atomic.LoadInt32(&hwm)), "hung": hung}
+}
+
 func init() {
 	families["access"] = func(o *Out, scnFile string, seed int64, count int, modes string, opts map[string]string) {
 		id := 0
@@ -1011,6 +1060,10 @@ func init() {
 				}
 				run(asStr(line["kind"]), steps, "tlc")
 			}
+		}
+		for _, size := range []int{-4, -1, 0, 1, 2, 3, 5} {
+			id++
+			o.WriteScenario(id, "config", "poolsize", map[string]any{"kind": "pool"}, nil, []Event{poolSizeProbe(size)})
 		}
 		r := rand.New(rand.NewSource(seed*13 + 1))
 		params := []string{"retries", "wait", "conc", "mode", "prep", "exec", "post", "fb"}
